@@ -92,7 +92,7 @@ def run_model(session_mod, n, chooser):
     import greenlet
     sched = Sched(greenlet.getcurrent())
     db = DB(sched)
-    session_mod.dataset = type('D', (), {'connect': staticmethod(lambda url: db)})
+    session_mod.dataset = type('D', (), {'connect': staticmethod(lambda url, *a, **kw: db)})
     res = {}
 
     def worker(i):
